@@ -199,6 +199,15 @@ def bl_schedules(case, ctx):
     nnz = len(case["px"])
     runs = []
     pool = None
+    if case.get("prior"):
+        # the reference run: the same content at a path this process has never used
+        fresh = cooler.Cooler(gen.place(ctx.path(), case["table"], case["px"], "symm"))
+        with warnings.catch_warnings():
+            warnings.simplefilter("ignore")
+            bias, stats = cooler.balance_cooler(fresh, **_kwargs(o, 0))
+        runs.append({"chunk": 0, "map": "fresh-path", "nan": [bool(x) for x in np.isnan(bias)],
+                     "q": [-1 if np.isnan(x) else min(1 << 30, int(round(float(x) * (1 << 20)))) for x in bias],
+                     "converged": [bool(x) for x in np.atleast_1d(stats["converged"])], "keysets": []})
     try:
         for chunk, kind in case["runs"]:
             if kind.startswith("cli."):
